@@ -183,8 +183,48 @@ def check_case(ctx, report, case, label, captured=None):
     check_outputs(ctx, report, case, impl, label)
 
 
+def check_run_filled_case(ctx, report, case, label):
+    """validation_run with `interpolated_disparity`: the filling comes after BOTH cross-checks, so the consistency band
+    of either map is still the left-right distance on the maps that entered the step, and a pixel that is consistent
+    on those maps carries none of the bits 4, 5, 8, 9 afterwards"""
+    impl = ca.run_validation(case)
+    plain = dict(case)
+    plain.pop("interpolated_disparity")
+    lft, rgt = case["left"], case["right"]
+    payload = {"left": {"threshold": case["threshold"], "dmin": lft["dmin"], "dmax": lft["dmax"], "offset": case["offset"],
+                        "disp": lft["disp"], "mask": lft["mask"]},
+               "right": {"threshold": case["threshold"], "dmin": rgt["dmin"], "dmax": rgt["dmax"], "offset": case["offset"],
+                         "disp": rgt["disp"], "mask": rgt["mask"]}}
+    model = ctx.lean.call("C07.run", variant=VARIANT["name"], **payload)
+    report.case(key=key_of(case), nontrivial=True, sample={"label": label, "interpolated_disparity": case["interpolated_disparity"]})
+    report.count("validation_run_filled_cases")
+    if impl["res"] != "ok":
+        report.count("validation_run_filled_raises")
+        return
+    for side in ("left", "right"):
+        report.hit("conf_band_value:with_interpolation")
+        if not same_grid(impl[side]["conf"], model[side]["conf"]):
+            add_failure(report, "conf_band_value" if side == "left" else "right_same_rule:conf_band_value", "with_interpolation:" + side, case,
+                        {"conf": impl[side]["conf"]},
+                        f"the consistency band of the {side} map is not the left-right distance on the maps that entered the step "
+                        f"(model: {json.dumps(model[side]['conf'])[:200]})")
+        bad = []
+        src = (lft if side == "left" else rgt)["mask"]
+        for r, row in enumerate(model[side]["mask"]):
+            for c, mflag in enumerate(row):
+                got = int(impl[side]["mask"][r][c])
+                if int(mflag) == int(src[r][c]) and (int(mflag) & 963) == 0 and (got & (16 + 32 + 256 + 512)) != (int(mflag) & (16 + 32 + 256 + 512)):
+                    bad.append([r, c, got])
+        report.hit("kept_iff_consistent:with_interpolation")
+        if bad:
+            add_failure(report, "kept_iff_consistent" if side == "left" else "right_same_rule:kept_iff_consistent", "with_interpolation:" + side,
+                        case, {"pixels": bad[:5]}, f"{len(bad)} pixels consistent on the maps that entered the step are flagged or filled")
+
+
 def check_run_case(ctx, report, case, label):
     """validation_run: left against right, then right against the checked left"""
+    if case.get("interpolated_disparity"):
+        return check_run_filled_case(ctx, report, case, label)
     impl = ca.run_validation(case)
     lft, rgt = case["left"], case["right"]
     payload = {"left": {"threshold": case["threshold"], "dmin": lft["dmin"], "dmax": lft["dmax"], "offset": case["offset"],
@@ -399,7 +439,7 @@ def run(ctx, report, status):
         "one call of the real disparity_checking(A, B) per case, compared cell by cell (exactly) with the Lean model, the "
         "Lean specification evaluated on the implementation's output; small scope exhaustively (left rows over "
         "{-1,-1/2,0,1/2,1,NaN}^3 x right rows over {-1,0,1/2,NaN}^3 x 2 thresholds), random pairs of maps with "
-        "planted consistent / inconsistent / outside / NaN / invalid pixels, the machine's validation_run callback, "
+        "planted consistent / inconsistent / outside / NaN / invalid pixels, the machine's validation_run callback (also with interpolated_disparity: band and consistent pixels judged on the maps that entered the step), "
         "validation steps observed in real pipelines. Non-trivial = at least one valid pixel; distinct by canonical input."
     )
     rng = ctx.rng
@@ -415,6 +455,11 @@ def run(ctx, report, status):
         check_case(ctx, report, random_check_case(rng), "random")
     for _ in range(ctx.n(80, 1500)):
         check_run_case(ctx, report, random_run_case(rng), "validation_run")
+    for _ in range(ctx.n(60, 1000)):
+        c = random_run_case(rng)
+        c["offset"] = 0
+        c["interpolated_disparity"] = rng.choice(["mc-cnn", "sgm"])
+        check_run_case(ctx, report, c, "validation_run_filled")
     for case, captured, label in pipeline_cases(ctx, report, ctx.n(5, 50)):
         check_case(ctx, report, case, label, captured=captured)
 
